@@ -179,7 +179,11 @@ func (n *DLQHandlerNode) Nack(msg *Message, nackMetadata NackMetadata) error {
 	writeTime := time.Now()
 	err = n.Handler.Write(msg.Ctx, dlqRecord)
 	if err != nil {
-		return err
+		// A record that can neither be delivered nor dead-lettered must stop
+		// the pipeline for good: recovering would re-read it and fail on the
+		// same DLQ write again, an endless loop of restarts (the arch-v2 engine
+		// marks this error fatal for the same reason).
+		return cerrors.FatalError(err)
 	}
 	n.Timer.Update(time.Since(writeTime))
 	n.Histogram.Observe(dlqRecord)
